@@ -51,6 +51,8 @@ type State struct {
 	epoch string
 	// errs: error values obtained from calls on this path (for the "no error is dropped" check)
 	errs []errRec
+	// reached: call sites executed on this path (Bool terms; inside a loop: during the current iteration)
+	reached map[*ast.CallExpr]string
 }
 
 type errRec struct {
@@ -60,6 +62,12 @@ type errRec struct {
 
 func (s *State) clone() *State {
 	n := &State{env: make(map[*types.Var]Val, len(s.env)), heap: make(map[string]string, len(s.heap)), alloc: s.alloc, epoch: s.epoch}
+	if len(s.reached) > 0 {
+		n.reached = make(map[*ast.CallExpr]string, len(s.reached))
+		for k, v := range s.reached {
+			n.reached[k] = v
+		}
+	}
 	for k, v := range s.env {
 		n.env[k] = v
 	}
@@ -598,6 +606,21 @@ func (u *Unit) merge(a, b *State) *State {
 		tb := u.heapTerm(b, k, u.heapSort[k])
 		out.heap[k] = ite(m, ta, tb)
 	}
+	if len(a.reached)+len(b.reached) > 0 {
+		out.reached = map[*ast.CallExpr]string{}
+		for k, va := range a.reached {
+			vb, ok := b.reached[k]
+			if !ok {
+				vb = "false"
+			}
+			out.reached[k] = ite(m, va, vb)
+		}
+		for k, vb := range b.reached {
+			if _, ok := a.reached[k]; !ok {
+				out.reached[k] = ite(m, "false", vb)
+			}
+		}
+	}
 	out.alloc = ite(m, a.alloc, b.alloc)
 	if a.alloc != b.alloc {
 		// keep alloc a simple term
@@ -818,4 +841,34 @@ func syntacticallyImplied(pc []string, goal string) bool {
 		}
 	}
 	return true
+}
+
+// markReached records that a call site is executed on this path.
+func (st *State) markReached(call *ast.CallExpr) {
+	if st.reached == nil {
+		st.reached = map[*ast.CallExpr]string{}
+	}
+	st.reached[call] = "true"
+}
+
+// resetReachedIn: at a loop head the call sites inside the body have not been executed in the coming
+// iteration (body state); after the loop nothing is known about them (exit state gets fresh values).
+func (u *Unit) resetReachedIn(body ast.Node, bodySt, exitSt *State) {
+	ast.Inspect(body, func(n ast.Node) bool {
+		if c, ok := n.(*ast.CallExpr); ok {
+			if bodySt != nil {
+				if bodySt.reached == nil {
+					bodySt.reached = map[*ast.CallExpr]string{}
+				}
+				bodySt.reached[c] = "false"
+			}
+			if exitSt != nil {
+				if exitSt.reached == nil {
+					exitSt.reached = map[*ast.CallExpr]string{}
+				}
+				exitSt.reached[c] = u.reg.fresh("reached", "Bool")
+			}
+		}
+		return true
+	})
 }
